@@ -112,6 +112,9 @@ def tree_key(repo):
         for dp, dn, fn in sorted(os.walk(r)):
             dn.sort()
             for f in sorted(fn):
+                # native-only sources are compiled out under Kani (cfg(not(kani))): they cannot change a Kani result
+                if r.startswith(HARNESS_SRC) and (f.startswith("native_") or os.path.join(dp, f).endswith(os.path.join("bin", "replay.rs"))):
+                    continue
                 files.append(os.path.join(dp, f))
     for f in files:
         try:
